@@ -12,10 +12,18 @@ from .c03 import CONC_ASSUMPTIONS
 
 def obls(P):
     c = P.c
+    L = c.L
     ids = []
     for t in P.threads:
+        if t.op == 'M':
+            # the transaction ids a concurrent match draws from the shared generator
+            mr = dict(zip(L.structs['MatchResult'], t.ret))
+            txs = mr['transactions'][0]
+            for i, x in enumerate(txs.cells):
+                ids.append((t.name, dict(zip(L.structs['Transaction'], x))['transaction_id'], S.Ult(S.bv(i, 64), txs.length)))
+            continue
         for x in t.ret:
-            ids.append((t.name, x))
+            ids.append((t.name, x, S.TRUE))
     # injectivity of UUID v5 on (namespace, decimal counter): assumed (uninterpreted function + axiom)
     apps = c.models.v5_apps
     ax = []
@@ -27,8 +35,8 @@ def obls(P):
     distinct = []
     for i in range(len(ids)):
         for j in range(i):
-            distinct.append(S.Not(S.Eq(ids[i][1], ids[j][1])))
-    return [{'name': 'all ids issued by the two threads (%d calls) are pairwise different' % len(ids),
+            distinct.append(S.Implies(S.And(ids[i][2], ids[j][2]), S.Not(S.Eq(ids[i][1], ids[j][1]))))
+    return [{'name': 'all ids issued through the shared generator by the two threads (up to %d) are pairwise different' % len(ids),
              'goal': S.And(P.live, S.Not(S.And(distinct)))},
             {'name': 'reach: both threads complete', 'kind': 'witness', 'goal': P.live}]
 
@@ -77,6 +85,11 @@ def run(tier, seed):
                                               'counter wrap-around after 2^64 calls is outside the claim (the arbitrary start value is assumed < 2^64 - calls)']
     known, fixed = load_known('C14')
     run_conc(run, ['NN'], 'emir.checks.c14.obls', timeout=120, base=base)
+    # a match draws its transaction ids from the same generator: match || next
+    mbase = {'pre': {'N': 2, 'K': 3}, 'match_unwind': 2, 'pop_unwind': 6, 'qty_mode': 'full', 'price': 1, 'calls': 2,
+             'arbitrary_generator': True}
+    run.bounds['match_vs_next'] = {'programs': ['MN', 'NM'], 'resting_orders_N': 2, 'tickets_K': 3, 'match_loop_unwind': 2}
+    run_conc(run, ['MN', 'NM'], 'emir.checks.c14.obls', timeout=300, base=mbase)
     (res, err), = parallel_map([(reproducible, (4,))], jobs=1)
     if err:
         run.inconclusive_('reproducibility: ' + err)
